@@ -268,6 +268,28 @@ def pair_sites(ctx, repo):
 
 
 # ------------------------------------------------------------------ R4
+def cond_cases(test):
+    """short-circuit decomposition of a condition: list of ([(atom, truth)...], overall truth)"""
+    if isinstance(test, ast.BoolOp):
+        is_and = isinstance(test.op, ast.And)
+        out = []
+
+        def rec(i, acc):
+            if i == len(test.values):
+                out.append((acc, is_and))
+                return
+            for atoms, t in cond_cases(test.values[i]):
+                if t != is_and:
+                    out.append((acc + atoms, t))
+                else:
+                    rec(i + 1, acc + atoms)
+        rec(0, [])
+        return out
+    if isinstance(test, ast.UnaryOp) and isinstance(test.op, ast.Not):
+        return [(a, not t) for a, t in cond_cases(test.operand)]
+    return [([(test, True)], True), ([(test, False)], False)]
+
+
 def r4_find_optimum(ctx, repo):
     rc = repo.cls("Results", "results")
     mod = rc.module
@@ -277,46 +299,99 @@ def r4_find_optimum(ctx, repo):
     C = "Results.find_optimum"
     table = []
     bad = None
+    unsure = None
     n = 0
+    n_picks = 0
+
+    def classify(atom, val, st):
+        t = text(atom)
+        if isinstance(atom, ast.Compare) and "'minimize'" in t and "criteria" in t and isinstance(atom.ops[0], (ast.Eq, ast.NotEq)):
+            st["min"] = val if isinstance(atom.ops[0], ast.Eq) else not val
+        elif isinstance(atom, ast.Compare) and "'maximize'" in t and "criteria" in t and isinstance(atom.ops[0], (ast.Eq, ast.NotEq)):
+            st["max"] = val if isinstance(atom.ops[0], ast.Eq) else not val
+        elif isinstance(atom, ast.Compare) and "criteria" in t and isinstance(atom.ops[0], (ast.Is, ast.IsNot)) and "None" in t:
+            st["none"] = val if isinstance(atom.ops[0], ast.Is) else not val
+        elif isinstance(atom, ast.Compare) and isinstance(atom.ops[0], ast.In) and "'criteria'" in t:
+            st["has"] = val
+
     for p in Enumerator(loop_counts=(0, 1)).function_paths(fn):
         if p.outcome == "raise":
             continue
         n += 1
-        crit_min = crit_none = has_crit = None
-        for e in p.events:
-            if e.kind == "guard":
-                t = text(e.node)
-                if isinstance(e.node, ast.Compare) and "'minimize'" in t and "criteria" in t and isinstance(e.node.ops[0], ast.Eq) and "in" not in t.split("'minimize'")[0].split()[-1:]:
-                    crit_min = e.val
-                elif isinstance(e.node, ast.Compare) and "criteria" in t and isinstance(e.node.ops[0], (ast.Is,)) and "None" in t:
-                    crit_none = e.val
-                elif isinstance(e.node, ast.Compare) and isinstance(e.node.ops[0], ast.In) and "'criteria'" in t:
-                    has_crit = e.val
+        st = {}
+        crit_def_i = None       # event index where the criteria value is read from costs[<index var>]
+        crit_idx_var = None
+        aliases = {}            # name -> IfExp selecting min/max
         picks = []
-        for e in p.events:
-            if e.kind == "stmt":
-                for c in calls_in(e.node):
+        idx_assign = {}
+        for i, e in enumerate(p.events):
+            if e.kind == "guard":
+                classify(e.node, e.val, st)
+                if "'criteria'" in text(e.node) and ".problem.costs[" in text(e.node):
+                    for nd in ast.walk(e.node):
+                        if isinstance(nd, ast.Subscript) and (access_path(nd.value) or "").endswith(".problem.costs") and isinstance(nd.slice, ast.Name):
+                            crit_idx_var, crit_def_i = nd.slice.id, (i if crit_def_i is None else crit_def_i)
+            elif e.kind in ("stmt", "return"):
+                s_ = e.node
+                if isinstance(s_, ast.Assign) and len(s_.targets) == 1 and isinstance(s_.targets[0], ast.Name):
+                    tn = s_.targets[0].id
+                    idx_assign.setdefault(tn, []).append(i)
+                    if isinstance(s_.value, ast.IfExp) and {access_path(s_.value.body), access_path(s_.value.orelse)} == {"min", "max"}:
+                        aliases[tn] = s_.value
+                    if tn == "criteria" or "criteria" in tn:
+                        for nd in ast.walk(s_.value):
+                            if isinstance(nd, ast.Subscript) and (access_path(nd.value) or "").endswith(".problem.costs") and isinstance(nd.slice, ast.Name):
+                                crit_idx_var, crit_def_i = nd.slice.id, i
+                        # dict.get('criteria', default): absent -> default
+                        for c in calls_in(s_.value):
+                            if isinstance(c.func, ast.Attribute) and c.func.attr == "get" and c.args and is_const(c.args[0]) and const_value(c.args[0]) == "criteria":
+                                st["default"] = const_value(c.args[1]) if len(c.args) > 1 and is_const(c.args[1]) else None
+                for c in calls_in(s_):
                     nm = access_path(c.func)
-                    if nm in ("min", "max") and c.args and (access_path(c.args[0]) or "").endswith(".problem.individuals"):
+                    if c.args and (access_path(c.args[0]) or "").endswith(".problem.individuals") and nm is not None:
                         key = [k.value for k in c.keywords if k.arg == "key"]
-                        picks.append((nm, text(key[0]) if key else None))
-        want_min = (crit_min is True) or (crit_none is True) or (has_crit is False)
-        if has_crit is False and crit_min is None and crit_none is None:
-            want_min = True
-        table.append({"has_criteria": has_crit, "is_minimize": crit_min, "is_none": crit_none, "picks": picks})
-        for nm, key in picks:
-            if (nm == "min") != want_min:
+                        keyt = text(key[0]) if key else None
+                        if nm in ("min", "max"):
+                            picks.append((i, nm, keyt, dict(st)))
+                        elif nm in aliases:
+                            ife = aliases[nm]
+                            for atoms, val in cond_cases(ife.test):
+                                st2 = dict(st)
+                                for a_, v_ in atoms:
+                                    classify(a_, v_, st2)
+                                # criteria absent <=> criteria is None (the variable starts as None and is only set when present)
+                                if st2.get("has") is False and (st2.get("none") is False or st2.get("min") or st2.get("max")):
+                                    continue
+                                picks.append((i, access_path(ife.body if val else ife.orelse), keyt, st2))
+        for i, nm, keyt, st_ in picks:
+            n_picks += 1
+            if st_.get("has") is False or st_.get("none") is True:
+                want_min = True
+            elif st_.get("min") is True:
+                want_min = True
+            elif st_.get("max") is True or st_.get("min") is False:
+                want_min = False
+            else:
+                want_min = None
+            table.append({"state": st_, "pick": nm, "key": keyt})
+            if want_min is None:
+                unsure = unsure or (p, "the direction of the optimum is chosen without consulting the criteria")
+            elif (nm == "min") != want_min:
                 bad = bad or (p, "for criteria %s the optimum is taken with %s()" % ("minimize/absent" if want_min else "maximize", nm))
-            if key is None or ".costs[index]" not in key.replace(" ", ""):
-                bad = bad or (p, "the optimum is not keyed by the named cost (key=%s)" % key)
-        if not picks:
-            # empty-population paths have no pick; fine
-            pass
+            if keyt is None or ".costs[index]" not in keyt.replace(" ", ""):
+                bad = bad or (p, "the optimum is not keyed by the named cost (key=%s)" % keyt)
+            # the criteria must belong to the goal that is optimised: no re-binding of its index variable in between
+            if crit_def_i is not None and crit_idx_var is not None:
+                later = [j for j in idx_assign.get(crit_idx_var, []) if crit_def_i < j < i]
+                if later:
+                    bad = bad or (p, "the optimisation direction is read from costs[%s] before `%s` is set to the requested goal: a named goal is optimised in the direction of another goal" % (crit_idx_var, crit_idx_var))
     ctx.extra["find_optimum_table"] = table
     if bad:
         ctx.violated("R4", C, where(mod, fn), bad[1] + " on the path [%s]" % bad[0].describe(6))
+    elif n_picks == 0 or unsure:
+        ctx.inconclusive("R4", C, where(mod, fn), unsure[1] if unsure else "no min()/max() selection over problem.individuals found")
     else:
-        ctx.holds("R4", C, where(mod, fn), "minimise/absent -> min, else max, keyed by costs[index], over problem.individuals (%d paths)" % n)
+        ctx.holds("R4", C, where(mod, fn), "minimise/absent -> min, else max, keyed by costs[index] of the requested goal, over problem.individuals (%d paths, %d selections)" % (n, n_picks))
 
 
 # ------------------------------------------------------------------ R5
